@@ -15,6 +15,7 @@ import Goat.Status
 import Goat.Classify
 import Goat.Chain
 import Goat.Stats
+import Goat.ClientStream
 open Goat Goat.Drv
 
 def showOptBytes : Option Bytes → String
@@ -164,6 +165,50 @@ def parseKind (s : String) : Option Stats.Kind :=
   | "OutPayload" => some .outPayload | "InTrailer" => some .inTrailer | "OutTrailer" => some .outTrailer
   | _ => none
 
+/-- id,hdr,meta,status,body,trailer,reset -/
+structure RespEnv where
+  id : Nat
+  hdr : Bool
+  md : Nat
+  status : Int
+  body : Bool
+  trailer : Nat
+  reset : Bool
+
+def parseRespEnv (s : String) : Option RespEnv :=
+  match s.splitOn "," with
+  | [id, h, m, st, b, t, r] => do
+    let id ← id.toNat?; let m ← m.toNat?; let st ← st.toInt?; let t ← t.toNat?
+    some { id := id, hdr := h == "1", md := m, status := st, body := b == "1", trailer := t, reset := r == "1" }
+  | _ => none
+
+def showTerm : ClientStream.Term → String
+  | .eof => "eof" | .status c => s!"status{c}" | .unavailable => "unavailable" | .ctxErr => "ctxErr"
+  | .muxErr => "muxErr" | .internalMeta => "internalMeta"
+
+/-- the client's verdicts on a response sequence followed by the end of the connection:
+    call A (unary, id 1) and call B (stream, id 2, the caller receives until an error) -/
+def cliSeq (es : List RespEnv) : String :=
+  let a := match es.find? (·.id == 1) with
+    | none => "closed"
+    | some e =>
+      let st : Option Status := if e.status ≥ 0 then some { code := e.status } else none
+      match StatusM.clientUnary true st (if e.body then some [] else none) with
+      | .success _ => "ok" | .malformed => "malformed" | .error s => s!"err{s.code}" | _ => "?"
+  let inbox : List ClientStream.InEnv := (es.filter (·.id == 2)).map (fun e =>
+    { metaBad := e.hdr && e.md == 2, reset := e.reset, trailer := e.trailer != 0, trMetaBad := e.trailer == 2,
+      code := (if (0 : Int) ≤ e.status then e.status else (0 : Int)), body := if e.body then some [] else none })
+  let cfg := ClientStream.Cfg.good
+  let msgs := (ClientStream.specBodies cfg true inbox).length
+  let term := match ClientStream.specTerminal cfg true inbox with
+    | some (some t) => showTerm t
+    | some none => "nil"
+    | none => "muxErr"
+  let h := match inbox with
+    | [] => "err"
+    | e :: _ => if e.metaBad then "err" else "ok"
+  s!"A={a}|B={msgs};{term}|H={h}"
+
 def evalOp (op input : String) : Option String :=
   match op with
   | "b64enc" => (parseHex input).map (fun b => hexOf (Base64.encode b))
@@ -192,6 +237,9 @@ def evalOp (op input : String) : Option String :=
         let lo ← lo.toInt?; let hi ← hi.toInt?
         some (if lo ≤ (d : Int) ∧ (d : Int) ≤ hi then "in" else s!"out({d})")
       | some d, _ => some s!"out({d})"
+    | _ => none
+  | "cliseq" => match input.splitOn "|" with
+    | [_, seq] => (parseList parseRespEnv ";" seq).map cliSeq
     | _ => none
   | "chainlog" => match input.splitOn "|" with
     | [n, req] => do let n ← n.toNat?; let req ← parseHex req; some (chainRun n req)
